@@ -35,6 +35,7 @@ import (
 	"github.com/btcsuite/btcd/chainhash/v2"
 	"github.com/btcsuite/btcd/wire/v2"
 	"github.com/lightningnetwork/lnd/batch"
+	"github.com/lightningnetwork/lnd/graph"
 	graphdb "github.com/lightningnetwork/lnd/graph/db"
 	"github.com/lightningnetwork/lnd/graph/db/models"
 	"github.com/lightningnetwork/lnd/lnwire"
@@ -86,7 +87,7 @@ func relevantGoroutines(self int64) []gState {
 		}
 		body := string(blk)
 		if !(strings.Contains(body, "gossipsim.(*raceSched)") || strings.Contains(body, "lnd/graph/db.") ||
-			strings.Contains(body, "lnd/batch.") || strings.Contains(body, "lnd/sqldb.") || strings.Contains(body, "gossipsim.RunStoreRace")) {
+			strings.Contains(body, "lnd/batch.") || strings.Contains(body, "lnd/graph.") || strings.Contains(body, "lnd/sqldb.") || strings.Contains(body, "gossipsim.RunStoreRace")) {
 			continue
 		}
 		st := string(m[2])
@@ -299,6 +300,12 @@ func RunStoreRace(r *simcore.Run) {
 
 	// appended after the arm's other configuration draws
 	sqlBackend := tp.CfgDraw(3) == 2
+	// Builder mode: channel updates go through graph.Builder.UpdateEdge, whose
+	// per-channel mutex has to make its freshness check and the store write
+	// one step. Updates then carry timestamps fixed when the programs are
+	// drawn (so that an older one can be in flight next to a newer one) and
+	// the tasks run only lookups, range queries and updates.
+	viaBuilder := tp.CfgDraw(2) == 1
 	rs := &raceSched{r: r, names: map[int64]string{}}
 	storeOpts := []graphdb.StoreOptionModifier{graphdb.WithRejectCacheSize(cacheSize),
 		graphdb.WithChannelCacheSize(cacheSize), graphdb.WithBatchCommitInterval(0)}
@@ -347,6 +354,20 @@ func RunStoreRace(r *simcore.Run) {
 		}
 	}
 	ctx := context.Background()
+	var builder *graph.Builder
+	if viaBuilder {
+		r.Arm += "+builder"
+		cg, err := graphdb.NewChannelGraph(store, graphdb.WithSyncGraphCachePopulation(), graphdb.WithPreAllocCacheNumNodes(8))
+		r.Must(err, "channel graph")
+		r.Must(cg.Start(), "graph start")
+		defer cg.Stop()
+		builder, err = graph.NewBuilder(&graph.Config{
+			Graph:              cg,
+			ChannelPruneExpiry: graph.DefaultChannelPruneExpiry,
+			IsAlias:            func(lnwire.ShortChannelID) bool { return false },
+		})
+		r.Must(err, "new builder")
+	}
 
 	base := int64(1_700_000_000)
 	ts := base
@@ -402,6 +423,8 @@ func RunStoreRace(r *simcore.Run) {
 		kind string
 		c    *raceChan
 		dir  int
+		t    time.Time // builder mode: fixed when drawn
+		err  error     // builder mode: what UpdateEdge returned
 	}
 	progs := make([][]op, nTasks)
 	for ti := range progs {
@@ -431,8 +454,18 @@ func RunStoreRace(r *simcore.Run) {
 			default:
 				o = op{kind: "horizon", c: c}
 			}
+			if viaBuilder {
+				switch o.kind {
+				case "delete", "add", "live":
+					o.kind = "update"
+					o.dir = tp.Draw(2)
+				}
+				if o.kind == "update" {
+					o.t = nextTs()
+				}
+			}
 			progs[ti] = append(progs[ti], o)
-			r.Logf("task%d op%d: %s chan %d dir %d", ti, k, o.kind, o.c.id, o.dir)
+			r.Logf("task%d op%d: %s chan %d dir %d ts %d", ti, k, o.kind, o.c.id, o.dir, o.t.Unix())
 		}
 	}
 
@@ -471,11 +504,18 @@ func RunStoreRace(r *simcore.Run) {
 			rs.mu.Unlock()
 			close(ready)
 			rs.gate("start")
-			for _, o := range progs[ti] {
+			for oi, o := range progs[ti] {
 				switch o.kind {
 				case "has":
 					_, _ = raceHas(store, o.c.id)
 				case "update":
+					if builder != nil {
+						err := builder.UpdateEdge(ctx, policy(o.c, o.dir, o.t), opts...)
+						dmu.Lock()
+						progs[ti][oi].err = err
+						dmu.Unlock()
+						break
+					}
 					o.c.wmu.Lock()
 					dmu.Lock()
 					t := nextTs()
@@ -543,6 +583,37 @@ func RunStoreRace(r *simcore.Run) {
 				c.id, live, disk)
 		}
 	}
+	// Builder mode: "applied only if strictly newer than the stored one". Every
+	// update UpdateEdge accepted was newer than what was stored when it was
+	// applied, so what is stored at the end is the newest accepted one.
+	if builder != nil {
+		type cd struct {
+			id  uint64
+			dir int
+		}
+		newest := map[cd]int64{}
+		for _, prog := range progs {
+			for _, o := range prog {
+				if o.kind == "update" && o.err == nil && o.t.Unix() > newest[cd{o.c.id, o.dir}] {
+					newest[cd{o.c.id, o.dir}] = o.t.Unix()
+				}
+			}
+		}
+		for _, c := range chans {
+			disk, err := raceHas(fresh, c.id)
+			r.Must(err, "HasV1ChannelEdge (fresh)")
+			for dir, stored := range []int64{disk.u1, disk.u2} {
+				if n := newest[cd{c.id, dir}]; n > 0 {
+					r.Count("race_builder_freshness_checks")
+					if stored < n {
+						r.Fail("older-update-overwrote-newer", "graph.Builder.UpdateEdge accepted a channel_update with timestamp %d for channel %d direction %d, yet the stored policy ends at %d: an older update was written over a newer one (freshness check and write are not one step per channel)",
+							n, c.id, dir, stored)
+					}
+				}
+			}
+		}
+	}
+
 	// Not judged (C20 speaks of what changes the graph and of what is relayed
 	// on receipt, not of what a later gossip query serves): is the channel
 	// cache behind ChanUpdatesInHorizon coherent too?
